@@ -87,6 +87,12 @@ CHECKS = {
             'the filtered Api, and fresh-interpreter import of python_types generated from it',
             'Held on the executions produced: minimal closure retained, nothing outside the maximal closure '
             'retained, no dangling reference, filtered modules import.', '4 C20'),
+    'C18': ('runtime monitoring: file-system snapshots (authoritative) and a sys.addaudithook log of write-like events '
+            'around every path request through the real Backend entry points in a sandbox; emit scripts run on '
+            'a real CodeBackend and compared with a reference pretty-printer; manifest run vs real run of every '
+            'built-in backend in-process and through the CLI',
+            'Held on the executions produced: nothing written outside the output folder, refused requests wrote '
+            'nothing, emitted text verbatim, manifests equal the created file sets.', '4 C18'),
 }
 
 PENDING = {}
